@@ -107,6 +107,9 @@ func main() {
 			return 1
 		}
 		rep := core.NewReport(*prop, *tier, prog)
+		if *overlay != "" {
+			rep.ScratchOut = filepath.Join(os.TempDir(), "yfcheck-overlay-out")
+		}
 		defer func() {
 			if x := recover(); x != nil {
 				fmt.Printf("ANALYZER PANIC: %v\n%s\n", x, debug.Stack())
